@@ -455,9 +455,9 @@ Proof.
     destruct (deliver c (set_vals s (vol s) (dev s) (foc s) tl) q) as [s' d]. simpl in *. split; assumption.
   - pose proof (drain_frame c (queue s) (set_vals s (vol s) (dev s) (foc s) [])) as ((_ & _ & F3 & _ & _ & F6) & _).
     destruct (drain c (set_vals s (vol s) (dev s) (foc s) []) (queue s)) as [s' d]. simpl in *. split; assumption.
-  - uv ltac:(split; reflexivity).
-  - uv ltac:(split; reflexivity).
-  - uv ltac:(split; reflexivity).
+  - uv ltac:(simpl; split; congruence).
+  - uv ltac:(simpl; split; congruence).
+  - uv ltac:(simpl; split; congruence).
 Qed.
 
 Definition inv (s : st) : Prop := blocked s = true -> fwd s = false.
@@ -543,8 +543,25 @@ Proof.
   rewrite <- app_comm_cons, !last_cons. apply IH.
 Qed.
 
-Fixpoint dvols (ops : list op) : list nat :=
-  match ops with [] => [] | DispVol _ v :: t => v :: dvols t | _ :: t => dvols t end.
+(* volume levels announced by the protocols, in order: device-side changes and the levels that
+   result from the user's set_volume / volume_up / volume_down (when not blocked and some
+   protocol provides Audio) *)
+Definition uvol (c : cfg) (s : st) (f : nat -> nat) : list nat :=
+  if blocked s then []
+  else match main_of (aregs c) None with None => [] | Some m => [f (alev s m)] end.
+Definition hvol (c : cfg) (s : st) (o : op) : list nat :=
+  match o with
+  | DispVol _ v => [v]
+  | SetVol v => uvol c s (fun _ => v)
+  | VolUp => uvol c s (fun a => Nat.min (S a) max_level)
+  | VolDown => uvol c s (fun a => a - 1)
+  | _ => []
+  end.
+Fixpoint dvols (c : cfg) (s : st) (ops : list op) : list nat :=
+  match ops with
+  | [] => []
+  | o :: t => hvol c s o ++ dvols c (fst (fst (step c s o))) t
+  end.
 Fixpoint ddevs (ops : list op) : list nat :=
   match ops with [] => [] | DispDev _ v :: t => v :: ddevs t | _ :: t => ddevs t end.
 
@@ -591,7 +608,7 @@ Ltac fin_q :=
 Lemma vol_norun c s o :
   is_run o = false ->
   vol (fst (fst (step c s o))) = vol s /\
-  qvols (queue (fst (fst (step c s o)))) = qvols (queue s) ++ dvols [o].
+  qvols (queue (fst (fst (step c s o)))) = qvols (queue s) ++ hvol c s o.
 Proof.
   destruct o; simpl; try discriminate; intros _; try fin_q.
   - destruct (opt_eqb (prev s p) (Some s0)); [|destruct (lis s p)]; fin_q.
@@ -602,19 +619,21 @@ Proof.
   - pose proof (takeover_data p l s []) as D. destruct (takeover s p l []) as [s' r]. simpl in *.
     destruct D as (_ & _ & _ & _ & D5 & D6 & D7 & D8). rewrite ?D5, ?D6, ?D7, D8. fin_q.
   - destruct (release_data l s) as (_ & _ & _ & _ & D5 & D6 & D7 & D8). rewrite ?D5, ?D6, ?D7, D8. fin_q.
+  - destruct (memb p (aregs c)); fin_q.
   - destruct (opt_eqb (main_of (kregs c) (ktake s)) (Some p)); fin_q.
+  - unfold uvol. uv fin_q.
+  - unfold uvol. uv fin_q.
+  - unfold uvol. uv fin_q.
 Qed.
-
-Lemma dvols_cons o t : dvols (o :: t) = dvols [o] ++ dvols t.
-Proof. destruct o; reflexivity. Qed.
 
 Lemma vol_gen c : forall ops s,
   vols (outs c s ops) ++ pairs (vol (final c s ops)) (qvols (queue (final c s ops))) =
-    pairs (vol s) (qvols (queue s) ++ dvols ops).
+    pairs (vol s) (qvols (queue s) ++ dvols c s ops).
 Proof.
   induction ops as [|o t IH]; intro s.
   - unfold outs. simpl. now rewrite app_nil_r.
   - rewrite outs_cons, final_cons, vols_app, <- app_assoc, IH. clear IH.
+    change (dvols c s (o :: t)) with (hvol c s o ++ dvols c (fst (fst (step c s o))) t).
     destruct (is_run o) eqn:R.
     + destruct o; try discriminate; simpl.
       * destruct (queue s) as [|q tl] eqn:Q; simpl; [now rewrite Q|].
@@ -630,7 +649,7 @@ Proof.
         destruct (drain c s0 (queue s)) as [s' d]. cbn [fst snd] in *.
         rewrite A1, A2, F7. simpl. now rewrite pairs_app.
     + rewrite (step_norun c s o R). destruct (vol_norun c s o R) as (V1 & V2).
-      rewrite V1, V2, (dvols_cons o t), <- app_assoc. reflexivity.
+      rewrite V1, V2, <- app_assoc. reflexivity.
 Qed.
 
 (* the same for the output devices (generated from the volume proofs by renaming) *)
@@ -674,7 +693,11 @@ Proof.
   - pose proof (takeover_data p l s []) as D. destruct (takeover s p l []) as [s' r]. simpl in *.
     destruct D as (_ & _ & _ & _ & D5 & D6 & D7 & D8). rewrite ?D5, ?D6, ?D7, D8. fin_q.
   - destruct (release_data l s) as (_ & _ & _ & _ & D5 & D6 & D7 & D8). rewrite ?D5, ?D6, ?D7, D8. fin_q.
+  - destruct (memb p (aregs c)); fin_q.
   - destruct (opt_eqb (main_of (kregs c) (ktake s)) (Some p)); fin_q.
+  - unfold uvol. uv fin_q.
+  - unfold uvol. uv fin_q.
+  - unfold uvol. uv fin_q.
 Qed.
 
 Lemma ddevs_cons o t : ddevs (o :: t) = ddevs [o] ++ ddevs t.
@@ -753,7 +776,11 @@ Proof.
   - pose proof (takeover_data p l s []) as D. destruct (takeover s p l []) as [s' r]. simpl in *.
     destruct D as (_ & _ & _ & _ & D5 & D6 & D7 & D8). rewrite ?D5, ?D6, ?D7, D8. fin_q.
   - destruct (release_data l s) as (_ & _ & _ & _ & D5 & D6 & D7 & D8). rewrite ?D5, ?D6, ?D7, D8. fin_q.
+  - destruct (memb p (aregs c)); fin_q.
   - destruct (opt_eqb (main_of (kregs c) (ktake s)) (Some p)); fin_q.
+  - unfold uvol. uv fin_q.
+  - unfold uvol. uv fin_q.
+  - unfold uvol. uv fin_q.
 Qed.
 
 Lemma foc_gen c : forall ops s,
@@ -858,8 +885,9 @@ Proof.
       rewrite IH; [|apply (streaming_same c m s); auto|assumption]. simpl.
       rewrite qplays_app. destruct (lis s p); simpl; now rewrite app_nil_r.
     + rewrite (step_norun c s (DispVol p v) eq_refl). simpl.
-      rewrite IH; [|apply (streaming_same c m s); auto|assumption]. simpl.
-      rewrite qplays_app. simpl. now rewrite app_nil_r.
+      destruct (memb p (aregs c));
+        (rewrite IH; [|apply (streaming_same c m s); auto|assumption]); simpl;
+        rewrite qplays_app; simpl; now rewrite app_nil_r.
     + rewrite (step_norun c s (DispDev p v) eq_refl). simpl.
       rewrite IH; [|apply (streaming_same c m s); auto|assumption]. simpl.
       rewrite qplays_app. simpl. now rewrite app_nil_r.
@@ -969,8 +997,9 @@ Proof.
       * apply Nat.eqb_eq in PM. subst p. rewrite SL. reflexivity.
       * destruct (lis s p); simpl; rewrite PM; reflexivity.
     + rewrite (step_norun c s (DispVol p v) eq_refl). simpl.
-      rewrite IH; [|apply (streaming_same c m s); auto|assumption]. simpl.
-      rewrite qerrs_app. simpl. now rewrite app_nil_r.
+      destruct (memb p (aregs c));
+        (rewrite IH; [|apply (streaming_same c m s); auto|assumption]); simpl;
+        rewrite qerrs_app; simpl; now rewrite app_nil_r.
     + rewrite (step_norun c s (DispDev p v) eq_refl). simpl.
       rewrite IH; [|apply (streaming_same c m s); auto|assumption]. simpl.
       rewrite qerrs_app. simpl. now rewrite app_nil_r.
